@@ -1,6 +1,7 @@
 package idem
 
 import (
+	"bytes"
 	"fmt"
 	"strconv"
 	"strings"
@@ -129,6 +130,8 @@ type shape struct {
 	body   func(n int) []byte
 	hdr    func(n int) []drive.H
 	send   bool // call c.Send even for an empty body
+	stream bool // body through c.SendStream
+	cookie bool // additionally c.Cookie(...) (serialised by fiber; not part of the planned list)
 }
 
 func h(k, v string) drive.H { return drive.H{K: k, V: v} }
@@ -171,6 +174,12 @@ var shapes = []shape{
 			s := strconv.Itoa(n)
 			return []drive.H{h("X-Exec", s), h("X-Comma", "a, b,c-"+s), h("X-Multi", "x,y-"+s), h("X-Multi", "")}
 		}},
+	{name: "stream", status: 200, stream: true,
+		body: func(n int) []byte { return []byte("streamed-" + strconv.Itoa(n)) },
+		hdr:  func(n int) []drive.H { return []drive.H{h("X-Exec", strconv.Itoa(n))} }},
+	{name: "api-cookie", status: 200, cookie: true,
+		body: func(n int) []byte { return []byte("cookie-" + strconv.Itoa(n)) },
+		hdr:  func(n int) []drive.H { return []drive.H{h("X-Exec", strconv.Itoa(n))} }},
 	{name: "redirect", status: 303,
 		body: func(int) []byte { return nil },
 		hdr: func(n int) []drive.H {
@@ -198,6 +207,7 @@ type execRec struct {
 	status int
 	body   []byte
 	hdr    []drive.H
+	cookie bool
 }
 
 type opRec struct {
@@ -385,7 +395,17 @@ func (r *run) handler(c fiber.Ctx) error {
 		for _, x := range ex.hdr {
 			c.RequestCtx().Response.Header.Add(x.K, x.V)
 		}
-		if len(ex.body) > 0 || sh.send {
+		if sh.cookie {
+			ex.cookie = true
+			c.Cookie(&fiber.Cookie{Name: "tok", Value: "v" + strconv.Itoa(n), Path: "/p", Expires: time.Unix(2000000000, 0), HTTPOnly: true})
+			c.Cookie(&fiber.Cookie{Name: "tok2", Value: "w" + strconv.Itoa(n), SameSite: "Strict"})
+		}
+		switch {
+		case sh.stream:
+			if err := c.SendStream(bytes.NewReader(ex.body)); err != nil {
+				panic("harness: SendStream failed: " + err.Error())
+			}
+		case len(ex.body) > 0 || sh.send:
 			if err := c.Send(ex.body); err != nil {
 				panic("harness: Send failed: " + err.Error())
 			}
